@@ -22,13 +22,13 @@ from ..fitlib import FitSim, NotApplicable
 from ..refmodel.container import RefSource
 from ..refmodel.cost import RefConstraint
 
-MODELS = {"xy": ["linear", "quadratic", "linear"], "indexed": ["affine", "three"], "hist": ["normal"], "unbinned": ["normal"]}
+MODELS = {"xy": ["linear", "quadratic", "linear_ac", "linear_cb"], "indexed": ["affine", "three", "affine_ca"], "hist": ["normal"], "unbinned": ["normal"]}
 
 
 def _member_spec(rng, t, n=None):
     cost = {"xy": rng.choice(["chi2", "chi2", "chi2_covariance"]), "indexed": rng.choice(["chi2", "chi2", "chi2_covariance"]), "hist": "nll", "unbinned": "nll"}[t]
     for _ in range(50):
-        spec = fitlib.gen_new(rng, t, cost=cost, nmax=6)
+        spec = fitlib.gen_new(rng, t, cost=cost, nmax=6, models=(MODELS[t] if t in ("xy", "indexed") else None))
         if spec["model"] in MODELS[t] and (n is None or t not in ("xy", "indexed") or fitlib.size_of(spec) == n):
             break
     spec["tiny"] = False
@@ -168,6 +168,8 @@ class MultiMachine(Machine):
                 ops.append(["read", rng.choice(["cost", "ndf", "gof", "chi2p", "member_cost"]), i])
         ops.append(["read", "cost", 0])
         ops.append(["read", "ndf", 0])
+        ops.append(["read", "gof", 0])
+        ops.append(["read", "chi2p", 0])
         if sw.random() < 0.5:
             ops.append(["do_fit"])
             ops.append(["read", "blocks", 0])
@@ -251,7 +253,7 @@ class MultiMachine(Machine):
                     return False
             return True
 
-        def joint_cost(with_det=True):
+        def joint_cost(with_det=True, gof=False):
             """Closed form for chi2 members joined by shared sources + the costs the other members report.
             V = Vy + Vx o (f' f'^T) on the concatenated data; Vy / Vx carry the members' own sources in the diagonal blocks and
             every enabled shared source of that axis in the diagonal and off-diagonal blocks between the sharing members."""
@@ -296,7 +298,11 @@ class MultiMachine(Machine):
                 c += float(np.linalg.slogdet(V)[1])
             for i, s in enumerate(sims):
                 if i not in chi:
-                    c += float(s.fit.cost_function_value)
+                    if gof:
+                        sub = [p[names.index(nm)] for nm in s.ref.par_names]
+                        c += float(s.ref.gof(sub))  # cost minus saturated cost of that member (reference side)
+                    else:
+                        c += float(s.fit.cost_function_value)
             c += cc + sum(k.cost(np.asarray(p)) for k in multi_constraints)
             return c
 
@@ -583,13 +589,18 @@ class MultiMachine(Machine):
                                 viol("C10", "closed-form", "multi.goodness_of_fit", "goodness_of_fit is %r although an unbinned member has no saturated model" % (got,), step)
                             continue
                         if shared:
-                            continue
-                        exp = 0.0
-                        for s in sims:
-                            sub = [p[names.index(nm)] for nm in s.ref.par_names]
-                            exp += s.ref.gof(sub)
-                        exp += sum(kc.cost(np.asarray(p)) for kc in multi_constraints)
-                        if got is None or not abs(got - exp) <= 1e-8 * (abs(exp) + 1.0):
+                            # residuals of the Gaussian members against the joint covariance (saturated model: residual 0), constraints of every level,
+                            # plus cost minus saturated cost of the other members
+                            exp = joint_cost(with_det=False, gof=True)
+                            if exp is None:
+                                continue
+                        else:
+                            exp = 0.0
+                            for s in sims:
+                                sub = [p[names.index(nm)] for nm in s.ref.par_names]
+                                exp += s.ref.gof(sub)
+                            exp += sum(kc.cost(np.asarray(p)) for kc in multi_constraints)
+                        if got is None or not abs(got - exp) <= (1e-6 if (shared and x_involved()) else 1e-8) * (abs(exp) + 1.0):
                             tags = ["multi-level-constraint"] if multi_constraints else []
                             viol("C10", "closed-form", "multi.goodness_of_fit", "MultiFit.goodness_of_fit is %r, cost minus saturated cost (determinant excluded, constraints included) is %.12g" % (
                                 got, exp), step, expected=exp, actual=got, extra={"tags": tags})
